@@ -19,7 +19,11 @@ EXPLANATION = 'bounded-exhaustive enumeration of base graph x ambiguous fragment
 
 
 def plan(tier, seed):
-    return RS.plan(tier, seed) + dedicated_plan(tier, seed)
+    tasks = RS.plan(tier, seed)
+    for t in tasks:
+        if t['space'].endswith('-orders'):
+            t['vias'] = ('string', 'graph')
+    return tasks + dedicated_plan(tier, seed)
 
 
 def dedicated_plan(tier, seed):
@@ -36,6 +40,14 @@ def dedicated_plan(tier, seed):
 
 
 def check(coarse, fine, fd, aa, inp):
+    toks = inp.get('tokens')
+    if toks is not None and not any(t[0] == 'm' for t in toks):
+        # the coarse graph handed back must still be the base graph that was written (edge orders included)
+        from ..gen import grammar as G
+        nodes, edges = G.denote(tuple(tuple(t) for t in toks))
+        got = {(min(a, b), max(a, b)): d.get('order') for a, b, d in coarse.edges(data=True)}
+        if got != edges:
+            return 'bond:base-graph-edge-orders-changed', {'written': sorted(edges.items()), 'returned': sorted(got.items())}
     return O.check_bonds(coarse, fine, fd, inp.get('legacy', True), aa, dedicated=inp.get('dedicated', False))
 
 
